@@ -56,6 +56,13 @@ class Contract:
         # callee name -> lambda(args of the call, ghost of this contract) -> dict: the instance of the callee's
         # (universally quantified) ghost constants this function's proof uses; default: an arbitrary fresh instance
         self.instantiate = kw.pop("instantiate", {})
+        # a postcondition that callers assume but that is NOT proved when the function is verified (an effect on a
+        # ghost view that the proof of the function does not reach); reported as an assumption
+        self.assume_post = kw.pop("assume_post", None)
+        # a condition on the state in which the function is entered that is assumed when the function is verified but
+        # is NOT an obligation of its call sites: a global invariant of a data structure (every operation is entered
+        # with it and proved to re-establish it) or a scoping restriction of the proof; reported as an assumption
+        self.entry = kw.pop("entry", None)
         if kw:
             raise TypeError(f"unknown contract fields {list(kw)}")
 
@@ -164,6 +171,10 @@ class RepoClass:
 
     def __repr__(self):
         return f"<RepoClass {self.__name__}>"
+
+    def __syminstance__(self, cls):
+        # isinstance(<class object>, type) and the like: decided on the real class
+        return isinstance(self.__vc_real__, cls) if isinstance(cls, type) else False
 
     def __call__(self, *args, **kwargs):
         return construct(self.__vc_real__, args, kwargs)
@@ -481,6 +492,8 @@ def call_contract(con: Contract, real, args, kwargs):
             raise ContractError(f"postcondition of {con.qual} is literally false when used as a callee contract")
         c.assume(v)
 
+    if con.assume_post is not None:
+        assume_clause(con.assume_post)
     if con.ensures is not None and exported(con.ensures):
         assume_clause(con.ensures)
     if con.ensures_named:
@@ -629,6 +642,8 @@ def verify_function(con: Contract) -> FnReport:
                 con.setup(args)
             if con.requires is not None:
                 c.assume(call_with(con.requires, dict(args, ghost=c.data["ghost"])))
+            if con.entry is not None:
+                c.assume(call_with(con.entry, dict(args, ghost=c.data["ghost"])))
             old = Namespace({n: snapshot(v) for n, v in args.items()})
             c.data["old"] = old
             c.data["args"] = args
